@@ -260,6 +260,25 @@ def lateListenStmt (st : St) (l s base op : String) : St × String :=
       st.bind l .post
   | _, _, _ => (st, "skip")
 
+/-- `r.filter_matches(k0).once().listen(|_| { r.filter_matches(k).listen(log l) })` — a route requested from inside a
+    handler that runs after the router's update: from the transaction *after* the first event routed to `k0` on, `l` is
+    told every event routed to `k` (the requesting transaction's own event has already been dispatched). -/
+def routeLateStmt (st : St) (l r k0 k : String) : St × String :=
+  if !st.fresh l then (st, "skip") else
+  match num k0, num k, st.find r with
+  | some k0, some k, some (.router src sel) =>
+    st.inTxn fun st =>
+      let i := st.sp.defs.size
+      let st := st.addDef (l ++ "#t") (.route src sel k0) .s       -- i
+      let st := st.addDef (l ++ "#o") (.once i) .s                 -- i+1
+      let st := st.addDef (l ++ "#m") (.mapto (i + 1) 2) .s        -- i+2
+      let st := st.addDef (l ++ "#f") (.hold (i + 2) 1) .c         -- i+3
+      let st := st.addDef (l ++ "#r") (.route src sel k) .s        -- i+4
+      let st := st.addDef (l ++ "#e") (.gate (i + 4) (i + 3)) .s   -- i+5
+      let st := { st with lis := st.lis.push { name := l, target := i + 5, isCell := false, regTxn := st.sp.txn, weak := false } }
+      st.bind l .post
+  | _, _, _ => (st, "skip")
+
 /-- one statement (not `begin`/`end`) -/
 def stmt (st : St) (ws : List String) : St × String :=
   match ws with
@@ -349,6 +368,7 @@ def stmt (st : St) (ws : List String) : St × String :=
          else closeTxn { st with posts := st.posts ++ [.ev i v] }
        else (st, "skip")
      | _, _ => (st, "skip"))
+  | ["routelate", l, r, k0, k] => routeLateStmt st l r k0 k
   | ["latelisten", l, s, base, op] => lateListenStmt st l s base op
   | ["switchlate", x, s, base, op] => switchLateStmt st x s base op
   | ["switchlatec", x, s, base, op] => switchLateCStmt st x s base op
